@@ -184,6 +184,9 @@ func (e *Engine) RunHarness(cfg *HarnessCfg, nValidate int) (res *HarnessResult)
 	defer func() {
 		if r := recover(); r != nil {
 			res.Err = fmt.Sprint(r)
+			if os.Getenv("SYMGO_STACK") != "" {
+				res.Err += "\n" + string(debug.Stack())
+			}
 			res.Stats = e.stats
 			res.WallS = time.Since(t0).Seconds()
 		}
@@ -407,6 +410,9 @@ func (e *Engine) resetGlobals() {
 	e.initDone = false
 	saved := e.cfg
 	savedStats := e.stats
+	savedP, savedDl := e.p, e.deadline
+	e.deadline = time.Time{}
+	defer func() { e.p, e.deadline = savedP, savedDl }()
 	e.stats = newStats()
 	e.RunInits(e.initPkgs)
 	e.markGlobals()
